@@ -47,7 +47,7 @@ def run(ev, fn, operands=(), render=None, alias_check=True):
     except Exception as e:
         ev['raised'] = 'Render:' + type(e).__name__
     same = before == [snap(o) for o in operands]
-    if same and alias_check and isinstance(r, Bits) and r.size > 0 and not any(r is o for o in operands):
+    if same and alias_check and isinstance(r, Bits) and r.size > 0:
         try:
             r[0] = 1 - r.bit(0)                   # the result must not share storage with an operand
             r.size = r.size + 1
